@@ -112,7 +112,7 @@ def _instantiate(fa: Term, witnesses: list, sa: SetAlg) -> list:
     return out
 
 
-def _quantifier_conds(c: Term):
+def _quantifier_conds(c: Term, ev=None):
     """`any(e for x in S if c for y in T ...)` as a guard is "for SOME x in S with c, some y in T ...: e" (the form search loops produce);
     its negation is the universal form.  Returns the replacement conditions or None."""
     neg = False
@@ -127,7 +127,9 @@ def _quantifier_conds(c: Term):
     elt, gens = comp[2], comp[3]
     if not gens or (isinstance(elt, tuple) and elt and elt[0] == "%payload"):
         return None
-    body = elt if c[0] == "any" else ("not", elt)
+    if ev is not None:
+        elt = ev.as_cond(elt)  # any()/all() judge their elements by truthiness
+    body = elt if c[0] == "any" else (elt[1] if elt[0] == "not" else ("not", elt))
     exists = (c[0] == "any") != neg
     seq: list = []
     for pat, it, conds in gens:
@@ -143,7 +145,7 @@ def _quantifier_conds(c: Term):
     return [("forall-not", first[1], first[2], tuple(seq[1:]))]
 
 
-def expand_quantifiers(paths: list) -> list:
+def expand_quantifiers(paths: list, ev=None) -> list:
     from dataclasses import replace
 
     out = []
@@ -151,7 +153,7 @@ def expand_quantifiers(paths: list) -> list:
         conds: list = []
         changed = False
         for c in p.conds:
-            r = _quantifier_conds(c)
+            r = _quantifier_conds(c, ev)
             if r is None:
                 conds.append(c)
             else:
@@ -320,7 +322,7 @@ def compare_with_reference(model: Model, impl_q: str, ref_q: str, types: dict[st
         pi, pr = bool_paths(pi), bool_paths(pr)
     from .symeval import resolve_ites
     pi, pr = resolve_ites(pi), resolve_ites(pr)
-    pi, pr = expand_quantifiers(pi), expand_quantifiers(pr)
+    pi, pr = expand_quantifiers(pi, ev_i), expand_quantifiers(pr, ev_r)
     if infeasible is not None:
         pi = [p for p in pi if not infeasible(p)]
         pr = [p for p in pr if not infeasible(p)]
